@@ -8,13 +8,14 @@
    lock-discipline check of C13 on the skeleton regenerated from dt/set.go, by the lock probe of the
    C18 driver (the producer runs under the set's mutex) and by the recorded concurrent histories, which
    are checked linearizable and whose witness order is re-run by the model (Corr/C18_corr.v, CLin). *)
-From FunV Require Import Base.Tac Base.ListX Model.SetModel Proofs.SetModel_base Proofs.SetModel_inv Proofs.SetModel_ops.
+From FunV Require Import Base.Tac Base.ListX Model.SetModel Proofs.SetModel_base Proofs.SetModel_inv Proofs.SetModel_ops Proofs.SetModel_refine.
 From FunV Require Import Conc.LockedObject.
 Local Open Scope Z_scope.
 
 Inductive sop :=
 | SAdd (v : Z) | SAddCheck (v : Z) | SDelete (v : Z) | SDeleteCheck (v : Z) | SCheck (v : Z) | SLen
-| SOrder | SSort (k : Z) (choice : list Z).
+| SOrder | SSort (k : Z) (choice : list Z)
+| SSynchronize (l : lockid) | SWithLock (l : lockid).   (* atomic operations on the mutex slot *)
 
 Definition sseq (s : set) (o : sop) : set * res :=
   match o with
@@ -26,9 +27,14 @@ Definition sseq (s : set) (o : sop) : set * res :=
   | SLen => let '(s', n) := len s in (s', RLen n)
   | SOrder => let '(s', p) := order s in (s', if p then RPanic else RUnit)
   | SSort k choice => match sort (lt_of k) choice s with Some s' => (s', RUnit) | None => (s, RBad) end
+  | SSynchronize l => (synchronize s l, RUnit)
+  | SWithLock l => let '(s', p) := with_lock s l in (s', if p then RPanic else RUnit)
   end.
 
-Definition rseq (r : rset) (o : sop) : rset * res :=
+(* reference state: the reference set and the identity of the mutex (write-once) *)
+Definition rstate := (rset * option lockid)%type.
+
+Definition rseq_set (r : rset) (o : sop) : rset * res :=
   match o with
   | SAdd v => (fst (r_add r v), RUnit)
   | SAddCheck v => let '(r', b) := r_add r v in (r', RBool b)
@@ -38,67 +44,135 @@ Definition rseq (r : rset) (o : sop) : rset * res :=
   | SLen => (r, RLen (r_len r))
   | SOrder => let '(r', p) := r_order r in (r', if p then RPanic else RUnit)
   | SSort k choice => match r_sort (lt_of k) choice r with Some r' => (r', RUnit) | None => (r, RBad) end
+  | SSynchronize _ | SWithLock _ => (r, RUnit)
   end.
+
+Definition rseq (rk : rstate) (o : sop) : rstate * res :=
+  let '(r, k) := rk in
+  match o with
+  | SSynchronize l => ((r, first_wins k l), RUnit)
+  | SWithLock l =>
+      if Z.eqb l 0 then ((r, k), RPanic)
+      else ((r, first_wins k l), match k with None => RUnit | Some c => if Z.eqb c l then RUnit else RPanic end)
+  | _ => let '(r', x) := rseq_set r o in ((r', k), x)
+  end.
+
+Definition abs2 (s : set) (rk : rstate) : Prop := abs s (fst rk) /\ s_mtx s = snd rk.
 
 Definition never_blocked (_ : res) : bool := false.
 
-Lemma sseq_sim s r o :
-  abs s r -> abs (fst (sseq s o)) (fst (rseq r o)) /\ snd (sseq s o) = snd (rseq r o).
+Lemma sseq_mtx_other s o :
+  match o with SSynchronize _ | SWithLock _ => True | _ => s_mtx (fst (sseq s o)) = s_mtx s end.
 Proof.
-  intros A. destruct o; cbn [sseq rseq].
-  - split; [apply abs_add, A|reflexivity].
-  - pose proof (abs_add _ _ v A) as [A' E]. destruct (add_check s v), (r_add r v). simpl in *. subst. auto.
-  - split; [apply abs_del, A|reflexivity].
-  - pose proof (abs_del _ _ v A) as [A' E]. destruct (delete_check s v), (r_del r v). simpl in *. subst. auto.
-  - pose proof (abs_check _ _ v A) as [A' E]. destruct (check s v). simpl in *. subst. auto.
-  - pose proof (abs_len_op _ _ A) as [A' E]. destruct (len s). simpl in *. subst. auto.
-  - pose proof (abs_order _ _ A) as [A' E]. destruct (order s), (r_order r). simpl in *. subst. auto.
-  - pose proof (abs_sort (lt_of k) choice _ _ A) as A'.
-    destruct (sort (lt_of k) choice s), (r_sort (lt_of k) choice r); try contradiction; simpl; auto.
+  destruct o; cbn [sseq]; try exact I.
+  - apply mtx_add.
+  - destruct (add_check s v) as [s' b] eqn:E. change s' with (fst (s', b)). rewrite <- E. apply mtx_add.
+  - apply mtx_del.
+  - destruct (delete_check s v) as [s' b] eqn:E. change s' with (fst (s', b)). rewrite <- E. apply mtx_del.
+  - unfold check. apply mtx_lock.
+  - unfold len. apply mtx_lock.
+  - destruct (order s) as [s' b] eqn:E. change s' with (fst (s', b)). rewrite <- E. apply mtx_order.
+  - destruct (sort (lt_of k) choice s) as [s'|] eqn:E; cbn [fst]; [eapply mtx_sort; eauto|reflexivity].
+Qed.
+
+Lemma sseq_sim s rk o :
+  abs2 s rk -> abs2 (fst (sseq s o)) (fst (rseq rk o)) /\ snd (sseq s o) = snd (rseq rk o).
+Proof.
+  destruct rk as [r k]. intros [A K]. cbn [fst snd] in A, K. pose proof (sseq_mtx_other s o) as M.
+  unfold abs2. destruct o; cbn [sseq rseq rseq_set] in *.
+  - cbn [fst snd] in *. split; [split; [apply abs_add, A|congruence]|reflexivity].
+  - pose proof (abs_add _ _ v A) as [A' E]. destruct (add_check s v), (r_add r v). cbn [fst snd] in *. subst.
+    split; [split; [assumption|congruence]|reflexivity].
+  - cbn [fst snd] in *. split; [split; [apply abs_del, A|congruence]|reflexivity].
+  - pose proof (abs_del _ _ v A) as [A' E]. destruct (delete_check s v), (r_del r v). cbn [fst snd] in *. subst.
+    split; [split; [assumption|congruence]|reflexivity].
+  - pose proof (abs_check _ _ v A) as [A' E]. destruct (check s v). cbn [fst snd] in *. subst.
+    split; [split; [assumption|congruence]|reflexivity].
+  - pose proof (abs_len_op _ _ A) as [A' E]. destruct (len s). cbn [fst snd] in *. subst.
+    split; [split; [assumption|congruence]|reflexivity].
+  - pose proof (abs_order _ _ A) as [A' E]. destruct (order s), (r_order r). cbn [fst snd] in *. subst.
+    split; [split; [assumption|congruence]|reflexivity].
+  - pose proof (abs_sort (lt_of k0) choice _ _ A) as A'.
+    destruct (sort (lt_of k0) choice s), (r_sort (lt_of k0) choice r); try contradiction; cbn [fst snd] in *;
+      (split; [split; [assumption|congruence]|reflexivity]).
+  - cbn [fst snd]. split; [|reflexivity]. split; [apply abs_synchronize, A|].
+    unfold synchronize. cbn [s_mtx]. rewrite mtx_set_first, K. reflexivity.
+  - pose proof (abs_with_lock _ _ l A) as A'. unfold with_lock in *.
+    destruct (Z.eqb l 0); cbn [fst snd] in *; [split; [split; assumption|reflexivity]|].
+    rewrite K in *. destruct k as [c|]; cbn [mtx_set fst snd negb first_wins s_mtx] in *.
+    + split; [split; [assumption|reflexivity]|]. destruct (Z.eqb c l); reflexivity.
+    + split; [split; [assumption|reflexivity]|reflexivity].
 Qed.
 
 Notation slegal := (legal set sop res sseq never_blocked RBad).
-Notation rlegal := (legal rset sop res rseq never_blocked RBad).
+Notation rlegal := (legal rstate sop res rseq never_blocked RBad).
 
-Lemma legal_sim l : forall s s' r, slegal s l s' -> abs s r -> exists r', rlegal r l r' /\ abs s' r'.
+Lemma legal_sim l : forall s s' rk, slegal s l s' -> abs2 s rk -> exists rk', rlegal rk l rk' /\ abs2 s' rk'.
 Proof.
-  induction l as [|e l IH]; intros s s' r L A; inversion L; subst.
-  - exists r. split; [constructor|exact A].
-  - pose proof (sseq_sim s r (le_op e) A) as [A1 E1].
+  induction l as [|e l IH]; intros s s' rk L A; inversion L; subst.
+  - exists rk. split; [constructor|exact A].
+  - pose proof (sseq_sim s rk (le_op e) A) as [A1 E1].
     match goal with H : sseq s (le_op e) = _ |- _ => rewrite H in A1, E1 end. simpl in A1, E1.
-    destruct (IH _ _ _ ltac:(eassumption) A1) as (r' & L' & A').
-    exists r'. split; [|exact A'].
-    eapply legal_op; eauto. destruct (rseq r (le_op e)) as [r1 x] eqn:E. simpl in *. subst. reflexivity.
-  - destruct (IH _ _ _ ltac:(eassumption) A) as (r' & L' & A').
-    exists r'. split; [|exact A']. eapply legal_cancel; eauto.
+    destruct (IH _ _ _ ltac:(eassumption) A1) as (rk' & L' & A').
+    exists rk'. split; [|exact A'].
+    eapply legal_op; eauto. destruct (rseq rk (le_op e)) as [r1 x] eqn:E. simpl in *. subst. reflexivity.
+  - destruct (IH _ _ _ ltac:(eassumption) A) as (rk' & L' & A').
+    exists rk'. split; [|exact A']. eapply legal_cancel; eauto.
+Qed.
+
+(* the reference's mutex, once installed, survives every legal execution *)
+Lemma rseq_lock_stable rk o l : snd rk = Some l -> snd (fst (rseq rk o)) = Some l.
+Proof.
+  destruct rk as [r k]. cbn [snd]. intros ->. destruct o; cbn [rseq]; try (destruct (rseq_set r _); reflexivity).
+  - reflexivity.
+  - destruct (Z.eqb l0 0); reflexivity.
+Qed.
+
+Lemma rlegal_lock_stable es : forall rk rk' l, rlegal rk es rk' -> snd rk = Some l -> snd rk' = Some l.
+Proof.
+  induction es as [|e es IH]; intros rk rk' l L K; inversion L; subst; auto.
+  - eapply IH; [eassumption|]. pose proof (rseq_lock_stable rk (le_op e) l K) as Q.
+    match goal with H : rseq rk (le_op e) = _ |- _ => rewrite H in Q end. exact Q.
+  - eapply IH; eauto.
 Qed.
 
 Notation srun init := (run set sop res init sseq never_blocked RBad).
 Notation slinearization init := (linearization set sop res init sseq never_blocked RBad).
 
-(* Any number of goroutines calling the methods of one synchronized set, any overlap: the calls, ordered
-   by their critical sections, form a sequential execution that (a) respects real time, (b) returns
-   exactly the results that were returned, and (c) is also an execution of the REFERENCE set with the
-   same results, ending in a reference state that abstracts the set's final state. *)
-Theorem sync_linearizable init r0 tr c :
-  abs init r0 -> srun init tr = Some c ->
+(* Any number of goroutines calling the methods of one synchronized set (including further Synchronize() /
+   WithLock() calls), any overlap: the calls, ordered by their critical sections, form a sequential
+   execution that (a) respects real time, (b) returns exactly the results that were returned, (c) is also an
+   execution of the REFERENCE set with the same results, ending in a reference state that abstracts the set's
+   final state, and (d) THE LOCK IS ONE LOCK: if the set starts with mutex l installed, every state reached
+   still has exactly l installed -- the single mutex the LockedObject premise is about. *)
+Theorem sync_linearizable init r0 l tr c :
+  abs init r0 -> s_mtx init = Some l -> srun init tr = Some c ->
   slinearization init tr c /\
   (forall a b, In a (hist c) -> In b (lin c) -> (c_ret a < le_inv b)%nat -> precedes (c_entry a) b (lin c)) /\
-  exists r', rlegal r0 (lin c) r' /\ abs (st c) r'.
+  (exists r', rlegal (r0, Some l) (lin c) (r', Some l) /\ abs (st c) r') /\
+  s_mtx (st c) = Some l.
 Proof.
-  intros A R. pose proof (lo_linearizable _ _ _ _ _ _ _ _ _ R) as Lz.
+  intros A K R. pose proof (lo_linearizable _ _ _ _ _ _ _ _ _ R) as Lz.
   split; [exact Lz|]. split; [exact (lo_realtime _ _ _ _ _ _ _ _ _ R)|].
-  exact (legal_sim _ _ _ _ (lz_legal _ _ _ _ _ _ _ _ _ Lz) A).
+  destruct (legal_sim _ _ _ (r0, Some l) (lz_legal _ _ _ _ _ _ _ _ _ Lz) (conj A K)) as ([r' k'] & L' & A' & K').
+  cbn [fst snd] in A', K'.
+  assert (Hk : k' = Some l) by exact (rlegal_lock_stable _ _ _ l L' eq_refl).
+  rewrite Hk in L', K'.
+  split; [exists r'; split; [exact L'|exact A']|exact K'].
 Qed.
 
-(* non-vacuity: two goroutines on an ordered synchronized set, overlapping AddCheck 1 / AddCheck 1 / DeleteCheck 1 *)
-Definition sync_init : set := synchronize (fst (order empty_set)).
+(* non-vacuity: two goroutines on an ordered synchronized set, overlapping AddCheck 1 / AddCheck 1 / DeleteCheck 1,
+   while thread 2 calls Synchronize() again and a rejected WithLock *)
+Definition sync_init : set := synchronize (fst (order empty_set)) 5%Z.
 Definition sync_trace : list (event sop) :=
-  [Inv 0 (SAddCheck 1); Inv 1 (SAddCheck 1); Crit 1; Crit 0; Ret 0; Inv 0 (SDeleteCheck 1); Ret 1; Crit 0; Inv 1 SLen; Crit 1; Ret 1; Ret 0]%nat.
+  [Inv 0 (SAddCheck 1); Inv 1 (SAddCheck 1); Inv 2 (SSynchronize (-1)%Z); Crit 1; Crit 2; Crit 0; Ret 0; Ret 2; Inv 2 (SWithLock 9%Z);
+   Inv 0 (SDeleteCheck 1); Ret 1; Crit 2; Crit 0; Inv 1 SLen; Crit 1; Ret 1; Ret 0; Ret 2]%nat.
 
 Example sync_trace_runs :
   match srun sync_init sync_trace with
-  | Some c => map (fun e => (le_tid e, le_res e)) (lin c) = [(1, RBool false); (0, RBool true); (0, RBool true); (1, RLen 0)]%nat
+  | Some c => map (fun e => (le_tid e, le_res e)) (lin c) =
+                [(1, RBool false); (2, RUnit); (0, RBool true); (2, RPanic); (0, RBool true); (1, RLen 0)]%nat
+              /\ s_mtx (st c) = Some 5
   | None => False
   end.
-Proof. vm_compute. reflexivity. Qed.
+Proof. vm_compute. split; reflexivity. Qed.
